@@ -285,3 +285,44 @@ pub fn c09_sq10_weight3(seed: u64) -> Phase {
         wall_cap_s: 0,
     }
 }
+
+fn rand255(val: u8, pos1: usize) -> u8 {
+    let pr = ((149 * pos1) % 255) + 1;
+    ((val as usize + pr) % 256) as u8
+}
+
+/// Base256 runs whose length field (one- and two-codeword form, correctly scrambled for its stream
+/// position) announces payload-2 .. payload+2 codewords, for every payload length up to `max_payload`,
+/// after 0, 1 or 3 leading ASCII codewords: the "length field vs. end of stream" corner, enumerated.
+pub fn c05_base256_lengths(seed: u64, max_payload: u64) -> Phase {
+    let total = (max_payload + 1) * 5 * 3;
+    let make = move |_ctx: &Ctx, i: u64| -> Trace {
+        let prefix = [0usize, 1, 3][(i % 3) as usize];
+        let r = i / 3;
+        let delta = (r % 5) as i64 - 2;
+        let payload = (r / 5) as usize;
+        let mut rng = Rng::new(mix64(seed ^ i.wrapping_mul(0x9E37_79B9_7F4A_7C15)));
+        let mut out: Vec<u8> = (0..prefix).map(|_| rng.range(1, 128) as u8).collect();
+        out.push(231);
+        let l = (payload as i64 + delta).max(0) as usize;
+        if l < 250 {
+            let p = out.len() + 1;
+            out.push(rand255(l as u8, p));
+        } else {
+            let p = out.len() + 1;
+            out.push(rand255((l / 250 + 249).min(255) as u8, p));
+            let p = out.len() + 1;
+            out.push(rand255((l % 250) as u8, p));
+        }
+        for _ in 0..payload {
+            let p = out.len() + 1;
+            out.push(rand255(rng.byte(), p));
+        }
+        Trace { prop: "C05".into(), producer: Producer::Stream { data: out }, faults: vec![] }
+    };
+    Phase {
+        source: Source::Sweep { name: format!("sweep_base256_length_fields_payload_le_{}", max_payload), prop: "C05".into(), make: Box::new(make) },
+        runs: total,
+        wall_cap_s: 0,
+    }
+}
